@@ -106,8 +106,23 @@ DirBook(ws, ln) ==
   ELSE IF ln.op = "symloop" THEN [ws EXCEPT !.flags = @ \cup {"regloop"}]
   ELSE ws
 
+\* Which removal does a watched parent directory of this Watcher report?  The operation removes ONE name (unlink, rmdir): its
+\* object is Line.ino, and the parent reports it iff the kernel queued IN_DELETE for a directory this Watcher watches for it.
+\* Lines that carry the records of several operations (bursts, rm -r, concurrent threads) do not say which entry a given
+\* IN_DELETE belongs to: undetermined.
+ParentReports(ws, ln) ==
+  IF ln.op \in {"rep", "par", "rmrf"}
+  THEN [ws EXCEPT !.prepAmb = TRUE,
+                  !.prepU = IF \E k \in 1..Len(ln.shadow) : HasBit(ln.shadow[k].m, IN_DELETE) /\ ln.shadow[k].ino \in DOMAIN ws.uw
+                            THEN @ \cup DOMAIN ws.uw ELSE @]
+  ELSE IF ln.op \in {"unlink", "rmdir"} /\ ln.ret = "ok" /\ ln.ino \in DOMAIN ws.uw
+          /\ \E k \in 1..Len(ln.shadow) : /\ HasBit(ln.shadow[k].m, IN_DELETE) /\ ln.shadow[k].ino \in DOMAIN ws.uw
+                                           /\ ws.uw[ln.shadow[k].ino].st = "live" /\ HasBit(ws.uw[ln.shadow[k].ino].mask, IN_DELETE)
+  THEN [ws EXCEPT !.prep = @ \cup {ln.ino}]
+  ELSE ws
 Fs == /\ IsKind("fs")
-      /\ W' = [w \in DOMAIN W |-> Unlinked(DirBook(ApplyAll(W[w], Line.shadow, seq, g.maxq, Line.op = "par"), Line), Line)]
+      /\ W' = [w \in DOMAIN W |-> [Unlinked(DirBook(ApplyAll(ParentReports(W[w], Line), Line.shadow, seq, g.maxq, Line.op = "par"), Line), Line)
+                                     EXCEPT !.prepAmb = FALSE]]
       /\ seq' = seq + Len(Line.shadow)
       /\ g' = IF \E k \in 1..Len(Line.shadow) : Line.shadow[k].ino \in {"?", "overflow"}
               THEN Infra("shadow record without object") ELSE g
